@@ -63,11 +63,23 @@ class FakeS3:
         self.ver = 0
         self.log = []  # (step, op, key, applied?)
         self.put_log = []  # applied writes: (step, key, actor, etag_before, etag_after)
+        self.history = {}  # key -> [(step, body|None)]  (every applied write / delete)
+        self.req_log = []  # (step, op, key, actor)
 
     def _pt(self, label, key):
         if SYM_MARK in key:
             raise AssertionError(f"symbolic value leaked into an object key: {key!r}")
         self.world.point(label, key=key)
+        from vf.rigs.world import actor as _a
+        self.req_log.append((self.world.step, label, key, _a()))
+
+    def content_at(self, key, step):
+        """Body of `key` as of (just after) the given step, None if absent."""
+        cur = None
+        for st, body in self.history.get(key, []):
+            if st <= step:
+                cur = body
+        return cur
 
     def _et(self, k):
         return '"%d"' % self.o[k][1]
@@ -87,6 +99,7 @@ class FakeS3:
         self.o[Key] = (Body, self.ver, Instant(self.world.clock.peek()))
         from vf.rigs.world import actor
         self.put_log.append((self.world.step, Key, actor(), before, self.ver))
+        self.history.setdefault(Key, []).append((self.world.step, Body))
         r = {"ETag": self._et(Key)}
         self._pt("put<", Key)
         return r
@@ -115,6 +128,8 @@ class FakeS3:
 
     def delete_object(self, Bucket, Key, **kw):
         self._pt("del>", Key)
+        if Key in self.o:
+            self.history.setdefault(Key, []).append((self.world.step, None))
         self.o.pop(Key, None)
         self._pt("del<", Key)
         return {}
